@@ -89,3 +89,31 @@ func symxC19Topics() {
 	rt.Cover(loaded && len(ref[1]) > 0 && len(ref[0]) > 0, "C19.topics.prefix_pair_after_load")
 	rt.Cover(len(ref[0]) > 0 && len(ref[1]) == 0, "C19.topics.parent_without_child")
 }
+
+func symxPar(a, b func()) {
+	done := make(chan struct{}, 2)
+	go func() { a(); done <- struct{}{} }()
+	go func() { b(); done <- struct{}{} }()
+	<-done
+	<-done
+}
+
+// symxC20Topics: concurrent operations on the retained-message trie.
+func symxC20Topics() {
+	t := NewTree()
+	t.Insert([]byte("a"), []byte("1"))
+	switch rt.Int("pair", 0, 2) {
+	case 0:
+		symxPar(func() { t.Insert([]byte("a/b"), []byte("2")) }, func() { t.Insert([]byte("b"), []byte("3")) })
+		rt.Assert(t.Count() == 3, "C20.topics.both_inserts_take_effect")
+	case 1:
+		var got [][]byte
+		symxPar(func() { t.Insert([]byte("a/b"), []byte("2")) }, func() { t.Match([]byte("a/#"), &got) })
+		rt.Assert(len(got) == 1 || len(got) == 2, "C20.topics.match_sees_a_consistent_tree")
+	case 2:
+		symxPar(func() { t.Insert([]byte("a/b"), []byte("2")) }, func() { t.Remove([]byte("a")) })
+		var got [][]byte
+		t.Match([]byte("a/b"), &got)
+		rt.Assert(len(got) == 1 && t.Count() == 1, "C20.topics.insert_beside_remove_of_its_prefix")
+	}
+}
